@@ -218,4 +218,28 @@ def valuesReal : G := .star .real
 /-- the LibSVM record `double_ >> *(uint_ >> ':' >> double_)` (skipper `space`) -/
 def svmLineG : G := .seq .real (.star (.mark (.seq .uint (.seq (.lit ':') .real))))
 
+/-! ### the repair of F-C19-11 as it is written in `Csv.cpp` -/
+
+/-- `cleanNumber<T>()` = `&create_parser<T>() >> create_parser<T>()`: look ahead, then parse -/
+def clean (p : G) : G := .seq (.andP p) p
+
+/-- a grammar with every `double_` replaced by `cleanNumber<double>()` — the text of the grammars in
+`Csv.cpp` since 25239316.  The model (and the driver) run the grammars above, without the look-ahead:
+`Lemmas/ImportCsv.lean` (`parse_cleanReal`) proves that both parse every input identically, because the
+modelled `double_` restores the position on failure, which is what the look-ahead enforces for spirit's. -/
+def cleanReal : G → G
+  | .real => clean .real
+  | .seq a b => .seq (cleanReal a) (cleanReal b)
+  | .alt a b => .alt (cleanReal a) (cleanReal b)
+  | .star a => .star (cleanReal a)
+  | .plus a => .plus (cleanReal a)
+  | .opt a => .opt (cleanReal a)
+  | .list a sep => .list (cleanReal a) (cleanReal sep)
+  | .andP a => .andP (cleanReal a)
+  | .notP a => .notP (cleanReal a)
+  | .diff a b => .diff (cleanReal a) (cleanReal b)
+  | .lexeme a => .lexeme (cleanReal a)
+  | .mark a => .mark (cleanReal a)
+  | g => g
+
 end SharkVerif.Peg
